@@ -504,15 +504,15 @@ pub fn run(cases: Vec<(String, Value)>, max_fail: usize, opts: &HashMap<String, 
                     for st in p.nodes.iter().filter(|n| matches!(n.kind.as_str(), "Empty" | "Assign" | "Call" | "If" | "While" | "Block") && n.first >= pd.first && n.last <= pd.last && n.last != usize::MAX) {
                         let (a, _) = cx.span(st.first);
                         let prev_end = if st.first > 0 { cx.span(st.first - 1).1 } else { 0 };
-                        if a == prev_end {
-                            continue;
-                        }
+                        // a statement glued to the preceding token (layout `min`): a statement position as well; its own site class
+                        let glued = a == prev_end;
                         // only statements directly in the procedure body or a block (a branch position is a statement position too)
                         let got = ask!("textDocument/completion", cx.tdp(a), "C16");
                         let gv = items_of(&got, k_var);
                         let gf = items_of(&got, k_fun);
                         let prev_kind = if st.first > 0 { p.toks[st.first - 1].kind.as_str() } else { "" };
-                        let site = format!("stmt-start-after-{}", prev_kind);
+                        let in_proc_body = st.parent.map(|q| p.nodes[q].kind == "ProcDec").unwrap_or(false);
+                        let site = if glued { format!("stmt-start-glued-to-{}{}", prev_kind, if in_proc_body { ":procedure-body" } else { "" }) } else { format!("stmt-start-after-{}", prev_kind) };
                         if gv != vars || gf != all_procs {
                             out.failures.push(fail("C16", "statement-start", &site, json!({"layout": lname, "text": r.text, "at_byte": a, "procedure": pd.attr,
                                                     "expected_variables": vars, "got_variables": gv, "expected_procedures": all_procs, "got_procedures": gf})));
